@@ -493,4 +493,200 @@ theorem final_status {sT fT nrep : Nat} (P : Params sT fT nrep) (n : Nat) (rs : 
       · intro h; simp at h
       · intro h; exact absurd h hnot
 
+/-! ### the acknowledgement decision (C22) -/
+
+/-- the answers the loop has taken from the channel when it returns -/
+def consumed (n sT fT : Nat) : St → List Resp → List Resp
+  | _, [] => []
+  | s, r :: rs => if canReturnEarly n sT fT (step s r) then [r] else r :: consumed n sT fT (step s r) rs
+
+theorem consumed_prefix (n sT fT : Nat) (s : St) (rs : List Resp) : consumed n sT fT s rs <+: rs := by
+  induction rs generalizing s with
+  | nil => simp [consumed]
+  | cons r rs ih =>
+    simp only [consumed]
+    split
+    · simp
+    · exact (List.prefix_cons_inj r).mpr (ih (step s r))
+
+/-- the loop returns what `finish` says about the state reached after the consumed answers … -/
+theorem loop_eq_finish_consumed (n sT fT thr : Nat) (s : St) (rs : List Resp) :
+    loop n sT fT thr s rs = finish n fT thr ((consumed n sT fT s rs).foldl step s) := by
+  induction rs generalizing s with
+  | nil => rfl
+  | cons r rs ih =>
+    simp only [loop, consumed]
+    split
+    · simp
+    · simp [ih]
+
+/-- … and it stops early only when every series is decided -/
+theorem consumed_early_or_all (n sT fT : Nat) (s : St) (rs : List Resp) :
+    consumed n sT fT s rs = rs ∨ canReturnEarly n sT fT ((consumed n sT fT s rs).foldl step s) = true := by
+  induction rs generalizing s with
+  | nil => left; rfl
+  | cons r rs ih =>
+    simp only [consumed]
+    split
+    · rename_i h; right; simpa using h
+    · rcases ih (step s r) with h | h
+      · left; rw [h]
+      · right; simpa using h
+
+theorem oks_mono {a b : List Resp} (h : a <+: b) (i : Nat) : oks a i ≤ oks b i := by
+  obtain ⟨t, rfl⟩ := h
+  simp [oks, evs_append, List.countP_append]
+
+theorem errsOf_len_mono {a b : List Resp} (h : a <+: b) (i : Nat) : (errsOf a i).length ≤ (errsOf b i).length := by
+  obtain ⟨t, rfl⟩ := h
+  simp [errsOf, evs_append, List.filterMap_append]
+
+theorem finish_ok_iff (n fT thr : Nat) (s : St) :
+    finish n fT thr s = .ok ↔ ∀ i, i < n → (s.errs i).length < fT := by
+  unfold finish
+  constructor
+  · intro h i hi
+    by_cases hl : (s.errs i).length ≥ fT
+    · have : replCause thr (s.errs i) ∈ collect n fT thr s := mem_collect.mpr ⟨i, hi, hl, rfl⟩
+      cases hc : collect n fT thr s with
+      | nil => rw [hc] at this; simp at this
+      | cons a l => rw [hc] at h; simp at h
+    · omega
+  · intro h
+    have : collect n fT thr s = [] := by
+      cases hc : collect n fT thr s with
+      | nil => rfl
+      | cons a l =>
+        have : a ∈ collect n fT thr s := by rw [hc]; simp
+        obtain ⟨i, hi, hl, _⟩ := mem_collect.mp this
+        have := h i hi; omega
+    simp [this]
+
+/-- The acknowledgement decision of `fanoutForward`, whatever threshold the replication errors
+    carry: the request is acknowledged iff every series has `sT` successful writes; and when it
+    is acknowledged, the successes were already there among the answers consumed so far. -/
+theorem loop_ok_iff {sT fT nrep : Nat} (P : Params sT fT nrep) (n thr : Nat) (rs : List Resp)
+    (hc : Complete n nrep rs) :
+    (loop n sT fT thr St.init rs = .ok ↔ ∀ i, i < n → sT ≤ oks rs i) ∧
+    (loop n sT fT thr St.init rs = .ok → ∀ i, i < n → sT ≤ oks (consumed n sT fT St.init rs) i) := by
+  obtain ⟨h1, h2, h3, h4⟩ := P
+  have hlen : ∀ i, i < n → oks rs i + (errsOf rs i).length = nrep := fun i hi => by
+    rw [oks_add_errs]; exact hc i hi
+  have hpre := consumed_prefix n sT fT St.init rs
+  have hsound : loop n sT fT thr St.init rs = .ok → ∀ i, i < n → sT ≤ oks (consumed n sT fT St.init rs) i := by
+    intro hok i hi
+    rw [loop_eq_finish_consumed, finish_ok_iff] at hok
+    have hl := hok i hi
+    rw [final_errs] at hl
+    rcases consumed_early_or_all n sT fT St.init rs with hall | hearly
+    · rw [hall] at hl ⊢
+      have := hlen i hi; omega
+    · rcases (canReturnEarly_iff _ _ _ _).mp hearly i hi with hs | hcf
+      · rwa [final_succ] at hs
+      · rw [final_errs] at hcf
+        have := countConflict_le_length (errsOf (consumed n sT fT St.init rs) i)
+        omega
+  refine ⟨⟨fun hok i hi => Nat.le_trans (hsound hok i hi) (oks_mono hpre i), ?_⟩, hsound⟩
+  intro hall
+  rw [loop_eq_finish_consumed, finish_ok_iff]
+  intro i hi
+  rw [final_errs]
+  have := errsOf_len_mono hpre i
+  have := hlen i hi
+  have := hall i hi
+  omega
+
+/-! ### distributeTimeseriesToReplicas -/
+
+/-- how often series `j` is listed over all writes -/
+def totalCount (ws : Writes) (j : Nat) : Nat := (ws.map fun w => w.2.count j).sum
+
+theorem totalCount_addWrite (k : Nat × Nat) (id : Nat) (ws : Writes) (j : Nat) :
+    totalCount (addWrite k id ws) j = totalCount ws j + (if j = id then 1 else 0) := by
+  induction ws with
+  | nil =>
+    simp only [addWrite, totalCount, List.map_cons, List.map_nil, List.sum_cons, List.sum_nil, List.count_cons, List.count_nil]
+    by_cases h : j = id
+    · subst h; simp
+    · have : ¬ id = j := fun h' => h h'.symm
+      simp [h, this]
+  | cons w ws ih =>
+    obtain ⟨k', ids⟩ := w
+    simp only [addWrite]
+    split
+    · simp only [totalCount, List.map_cons, List.sum_cons, List.count_append, List.count_cons, List.count_nil]
+      by_cases h : j = id
+      · subst h; simp; omega
+      · have : ¬ id = j := fun h' => h h'.symm
+        simp [h, this]
+    · simp only [totalCount, List.map_cons, List.sum_cons] at ih ⊢
+      rw [ih]; omega
+
+theorem totalCount_placeSeries (id : Nat) (pl : List Nat) (rns : List Nat) (ws ws' : Writes) (j : Nat)
+    (h : placeSeries id pl rns ws = some ws') :
+    totalCount ws' j = totalCount ws j + (if j = id then rns.length else 0) := by
+  induction rns generalizing ws with
+  | nil => simp [placeSeries] at h; subst h; simp
+  | cons rn rns ih =>
+    simp only [placeSeries] at h
+    split at h
+    · simp at h
+    · rw [ih _ h, totalCount_addWrite]
+      by_cases hj : j = id <;> simp [hj]; omega
+
+theorem totalCount_distributeFrom (replicas : List Nat) (id0 : Nat) (pls : List (List Nat)) (ws ws' : Writes) (j : Nat)
+    (h : distributeFrom replicas id0 pls ws = some ws') :
+    totalCount ws' j = totalCount ws j + (if id0 ≤ j ∧ j < id0 + pls.length then replicas.length else 0) := by
+  induction pls generalizing id0 ws with
+  | nil => simp [distributeFrom] at h; subst h; simp; intro _; omega
+  | cons pl pls ih =>
+    simp only [distributeFrom] at h
+    split at h
+    · simp at h
+    · rename_i ws1 h1
+      rw [ih _ _ h, totalCount_placeSeries _ _ _ _ _ _ h1]
+      simp only [List.length_cons]
+      by_cases a : j = id0
+      · subst a
+        have : ¬ (j + 1 ≤ j ∧ j < j + 1 + pls.length) := by omega
+        have : (j ≤ j ∧ j < j + (pls.length + 1)) := by omega
+        simp [*]
+      · by_cases b : id0 + 1 ≤ j ∧ j < id0 + 1 + pls.length
+        · have : id0 ≤ j ∧ j < id0 + (pls.length + 1) := by omega
+          simp [a, b, this]
+        · have : ¬ (id0 ≤ j ∧ j < id0 + (pls.length + 1)) := by omega
+          simp [a, b, this]
+
+theorem sum_perm {a b : List Nat} (h : a.Perm b) : a.sum = b.sum := by
+  induction h with
+  | nil => rfl
+  | cons x _ ih => simp [ih]
+  | swap x y l => simp; omega
+  | trans _ _ ih1 ih2 => rw [ih1, ih2]
+
+theorem evs_length (rs : List Resp) (i : Nat) : (evs rs i).length = (rs.map fun r => r.ids.count i).sum := by
+  induction rs with
+  | nil => rfl
+  | cons r rs ih => simp [ih]
+
+/-- `distributeTimeseriesToReplicas` lists every series once per replica; hence, if every write
+    is answered exactly once, every series is answered once per replica. -/
+theorem distribute_complete (replicas : List Nat) (placement : List (List Nat)) (ws : Writes) (rs : List Resp)
+    (hd : distribute replicas placement = some ws)
+    (hans : (rs.map (·.ids)).Perm (ws.map (·.2))) :
+    Complete placement.length replicas.length rs := by
+  intro i hi
+  rw [evs_length]
+  have h1 : (rs.map fun r => r.ids.count i) = (rs.map (·.ids)).map (fun ids => ids.count i) := by simp
+  have h2 : (ws.map fun w => w.2.count i) = (ws.map (·.2)).map (fun ids => ids.count i) := by simp
+  rw [h1, sum_perm (hans.map _), ← h2]
+  have := totalCount_distributeFrom replicas 0 placement [] ws i hd
+  simp only [totalCount] at this
+  rw [this]
+  simp [hi]
+
+theorem replicasOf_length (rf rep : Nat) : (replicasOf rf rep).length = nrepOf rf (decide (rep ≠ 0)) := by
+  unfold replicasOf nrepOf
+  by_cases h0 : rep = 0 <;> simp [h0]
+
 end Thanos.Quorum
